@@ -1,6 +1,6 @@
 """A1 queries: dominating branch conditions, closure environments, iterator-chain sources."""
 from .exprs import ExprBuilder, short_callee, leaf_name, show, walk, TRANSPARENT, strip, origin_desc
-from .mir import callee_name, op_place, pl_local
+from .mir import callee_name, callee_of, op_place, pl_local
 
 
 def dominating_conditions(body, bb, eb=None):
@@ -465,3 +465,54 @@ def inline_helper(prog, n, depth=0):
     if any(x[0] in ("var",) and x[1] <= body.argc for x in walk(r)):
         return None
     return r
+
+
+# --------------------------------------------------------------------------- scope instances across helper functions
+
+def scope_instances(prog, root_fn, follow, maxdepth=4):
+    """every body that runs as part of root_fn - its closures, and the workspace functions `follow(fn)` accepts, instantiated once per call
+    site with the parameters bound to the caller's arguments - together with the conditions that hold whenever it runs.
+    Returns [(scope, [(condition node, switch edge)] gathered along the way, call chain as text)]."""
+    out = []
+
+    def rec(sc, ctx_conds, depth, chain):
+        out.append((sc, ctx_conds, chain))
+        if depth >= maxdepth:
+            return
+        for (b, t, ch) in sc.children():
+            here = [(n, tk) for (_, d, n, tk) in sc.conditions(b)]
+            rec(ch, ctx_conds + here, depth + 1, chain)
+        for b, t in sc.body.calls():
+            c = callee_of(t)
+            if not c:
+                continue
+            tid = c.get("rid") or c["id"]
+            fn = prog.fns.get(tid)
+            if fn is None or fn.kind not in ("fn", "assocfn") or not follow(fn) or fn.id == sc.fn.id:
+                continue
+            if fn.body.argc != len(t["args"]):
+                continue
+            here = [(n, tk) for (_, d, n, tk) in sc.conditions(b)]
+            hsc = Scope(prog, fn, argmap={i + 1: sc.operand(a) for i, a in enumerate(t["args"])})
+            rec(hsc, ctx_conds + here, depth + 1, chain + [fn.path.split("::")[-1]])
+        # a function item passed where a closure is expected: `iter().filter_map(check_one)`
+        for b, t in sc.body.calls():
+            nm = callee_name(t) or ""
+            if short_callee(nm) not in ELEM_CONSUMERS or len(t["args"]) < 2:
+                continue
+            for a in t["args"][1:]:
+                fi = fn_item_of(strip(sc.eb.operand(a)))
+                if not fi:
+                    continue
+                ids = prog.callee_index().get(fi, ()) or {f.id for f in prog._by_path.get(fi, [])}
+                if len(ids) != 1:
+                    continue
+                fn = prog.fns[next(iter(ids))]
+                if not follow(fn) or fn.body.argc != 1:
+                    continue
+                here = [(n, tk) for (_, d, n, tk) in sc.conditions(b)]
+                elem = elem_of_chain(iter_chain(sc.operand(t["args"][0])))
+                hsc = Scope(prog, fn, argmap={1: elem})
+                rec(hsc, ctx_conds + here, depth + 1, chain + [fn.path.split("::")[-1]])
+    rec(Scope(prog, root_fn), [], 0, [root_fn.path.split("::")[-1]])
+    return out
